@@ -40,6 +40,12 @@ def scenarios(tier):
         for trig in (('boot', 'restart-glob-all') if tier == 'quick' else TRIGGERS):
             for gw in ((1,) if tier == 'quick' else (0, 1)):
                 out.append(Scenario('prio', pr=list(pr), wc=1, gw=gw, auto_c=True, trig=trig, E=1))
+    # the start of one watcher is called off after its workers were spawned (after_start refuses): the next watcher still
+    # keeps its distance from that watcher's last spawn
+    for pr in ([2, 1, 0], [1, 2, 0], [0, 1, 2]):
+        for trig in (('boot', 'start-all') if tier == 'quick' else TRIGGERS):
+            for who in ('a', 'b'):
+                out.append(Scenario('prio', pr=list(pr), wc=1, gw=1, auto_c=True, trig=trig, E=0, nodet=True, fail=who))
     # a dense periodic check (0.2 s < the warmup delays): the respawn of a worker that died during the sequence is attempted
     # as soon as the sequence lets go of the exclusive slot - it must still keep its watcher's spacing
     for pr in (sub[:2] if tier == 'quick' else sub):
@@ -74,6 +80,10 @@ def run(scn, ch):
                 time.sleep(0.03)
                 return True
             kw['hooks'] = {'after_spawn': (slow_hook, False)}
+        if scn.p.get('fail') == nm:
+            def refuse(watcher, arbiter, hook_name, **kw2):
+                return False
+            kw.setdefault('hooks', {})['after_start'] = (refuse, False)
         specs.append(WSpec(nm, **kw))
     tick = scn.p.get('tick')
     world = World(ch, specs, arbiter_kw={'warmup_delay': scn.gw}, **({'check_delay': tick} if tick else {}))
